@@ -289,11 +289,17 @@ int32 getDefaultVersions(ssl_t *ssl)
 
     /* Loop over versions from latest to earliest (priority order). */
     mask = (1 << 23);
-    for (k = 23; k >= 1; k--)
+    for (k = 23; k >= 1; k--, mask >>= 1)
     {
         /* No longer advertise TLS 1.3 draft versions unless specifically
            enabled via compile-time config. */
         if (!supportTls13Draft && (mask & v_tls_1_3_draft_any))
+        {
+            continue;
+        }
+        /* DTLS sessions always pass SSL_FLAGS_DTLS in versionFlag and never
+           get here: the default set of a TLS session has no DTLS versions. */
+        if (mask & v_dtls_any)
         {
             continue;
         }
@@ -303,7 +309,6 @@ int32 getDefaultVersions(ssl_t *ssl)
             /* Add it. */
             addVersion(ssl, mask);
         }
-        mask >>= 1;
     }
 
     return MATRIXSSL_SUCCESS;
